@@ -49,7 +49,8 @@
 //! request  := simstep <info> regs heap ext
 //!   info   := i:<opcode>:<kind>:<core|ext|alias>:<scr|lin>:<inline-rc count>   (ignored by the driver; scr = a forced
 //!             collection ran earlier in this VM, so the free list is no longer the allocator's initial order;
-//!             alias = CONS / VARARG whose operand is an inline `Rc` payload: `heap.put` then creates a second heap
+//!             alias = CONS / VARARG whose operand is an inline `Rc` payload (only VPUSH before fix 43d0413 left one in
+//!             %acc; the bucket is empty on the repaired code): `heap.put` then creates a second heap
 //!             cell sharing the `Rc`, which the by-value model cannot express — the Python side compares only
 //!             registers, stack and the number of changed cells for these steps and counts them separately)
 //! response := ok <sp> <bp> <ep> <ipl> <ipo> <acc:cell> <halt 0|1> <cap> <n> cell*n delta
